@@ -351,8 +351,57 @@ where
     });
 }
 
+/// transitions that need 11-13 doublings at an ordinary step size: a wide 1-D Gaussian (sd 300-2500) with step size 1
+/// (no depth cap in Algorithm 6: the trajectory is doubled until it turns)
+fn deep_transitions<T: Sc, B: AutodiffBackend>(out: &mut Out, rng: &mut Sm)
+where
+    StandardNormal: rand::distr::Distribution<T>,
+    StandardUniform: rand_distr::Distribution<T>,
+    Exp1: rand_distr::Distribution<T>,
+    T: rand_distr::uniform::SampleUniform + num_traits::FromPrimitive,
+{
+    let id = out.fresh_id("deep");
+    let sd = rng.log_uniform(300.0, 2500.0);
+    let target = AnyTarget::GaussD { mean: vec![rng.normal() * 10.0], prec: vec![1.0 / (sd * sd)] };
+    let start = vec![rng.normal() * sd * 0.5];
+    let seed = rng.next();
+    if !out.selected(&id) {
+        return;
+    }
+    guard_case(out, &id.clone(), "C03:panic", 4096, |out| {
+        let p: Vec<T> = start.iter().map(|x| T::from64(*x)).collect();
+        let mut c = NUTSChain::<T, B, AnyTarget>::new(target.clone(), p, T::from64(0.8)).set_seed(seed);
+        c.verif_init_chain(3, 0);
+        for k in 0..3 {
+            c.verif_set_epsilon(T::from64(1.0));
+            let Some((c2, ev)) = step_wd::<T, B>(c, 60) else {
+                out.fail(&format!("{id}.{k}"), "C03:transition-hang", "a NUTS transition did not finish within 60 s", 4096, format!("{} {} seed {seed}", T::NAME, target.spec::<T>()));
+                return;
+            };
+            c = c2;
+            match parse_step(&ev) {
+                Some(tr) if tr.depth <= 14 => {
+                    if tr.depth >= 11 {
+                        out.count("transitions_with_11_or_more_doublings");
+                    }
+                    emit_step::<T>(out, &format!("{id}.{k}"), "C03", &target, &tr, 1u64 << tr.depth.min(14));
+                }
+                Some(_) => out.count("transitions_too_deep_to_replay"),
+                None => out.fail(&id, "C03:no-trace", "NUTS step produced no hook trace", 1, format!("{} events", ev.len())),
+            }
+        }
+    });
+}
+
 pub fn run_c03(out: &mut Out) {
     let mut rng = out.rng("c03");
+    for i in 0..out.n(2, 30) {
+        if i % 2 == 0 {
+            deep_transitions::<f64, Autodiff<NdArray<f64>>>(out, &mut rng);
+        } else {
+            deep_transitions::<f32, Autodiff<NdArray<f32>>>(out, &mut rng);
+        }
+    }
     let n = out.n(30, 1200);
     for i in 0..n {
         if i % 2 == 0 {
